@@ -26,18 +26,18 @@ CHECKS = {
             'The REALPATH prologue (types, existence, separator completion, follow arguments) is proved; equality of glob() and globmatch(REALPATH) depends on the OS and on _fs_match '
             'and is checked bounded on generated trees.', '5 C04'),
     'C05': ('other', f'{P_TXT} (Glob.glob frame/dominance, _get_starting_paths, _glob_dir yield/recursion guards); {B_TXT}: glob() vs an independent specification walk',
-            'Local obligations of the walker are proved; walker completeness over all trees needs an inductive proof through three mutually recursive generators relative to an OS '
+            'Local obligations of the walker are proved, and for the pattern splitter (_GlobSplit.split) that segments are cut exactly at separator spellings and tile the pattern, for all pattern texts; walker completeness over all trees needs an inductive proof through three mutually recursive generators relative to an OS '
             'contract - stated as contract, checked bounded.', '5 C05'),
     'C06': ('other', f'{P_TXT} (follow_links / follow argument / _glob_dir recursion guard / os.walk followlinks); {B_TXT}: scandir counting and termination on trees with symlink cycles',
             'The symlink guards are proved on the real bodies (termination relative to a finite real tree); listing discipline and termination are additionally measured on generated trees.', '5 C06'),
     'C07': ('other', f'{P_TXT} (is_negative, no_negate_flags, routing of every expansion in compile_pattern/translate/_iter_patterns with loop invariants); bounded: splitter vs specification '
-            'splitter on exhaustive strings; list-level exact language decision', 'Routing and flag obligations are proved for all inputs; the splitter and the per-pattern meanings are bounded stand-ins.', '5 C07'),
+            'splitter on exhaustive strings; list-level exact language decision', 'Routing and flag obligations are proved for all inputs; for the SPLIT scanner (WcSplit._split and its helpers) index discipline, progress and the splitting theorem (pieces are cut at | characters and join back to the pattern) are proved for all pattern texts; WHICH | are top-level and the per-pattern meanings are bounded stand-ins.', '5 C07'),
     'C08': ('other', f'{P_TXT} (translate and compile_pattern satisfy one routing contract, _compile, call chain); per-pattern exact language equality translate() vs the matcher\'s regexes',
             'That translate and the matcher route and flag every expansion identically is proved; that _TRANSLATE does not change the language is decided per pattern for all names (bounded in the pattern).', '5 C08'),
     'C09': ('other', f'{P_TXT} (escape/is_magic call chain); finite complete enumeration magic symbols within escaped set; per-string exact singleton-language decision',
             'The finite part is complete; "escape(s) matches exactly s" is decided exactly per (string, flags), bounded in the string.', '5 C09'),
     'C10': ('other', f'{P_TXT} (only PatternLimitException escapes the limit loops; TypeError contract); {B_TXT}: exhaustive/random pattern strings through every entry point',
-            'No-crash over all strings is not provable for the hand-written scanners with the tools present (stated in DESIGN.md); bounded exhaustive strings over focused alphabets.', '5 C10'),
+            'Index discipline (no rewind past the start, index inside the text, only StopIteration as control flow, progress) is proved for util.StringIter, the SPLIT scanner, the glob splitter scan and consume_path_sep; no-crash over all strings for the token handlers of the compiler is not provable with the tools present (stated in DESIGN.md): bounded exhaustive strings over focused alphabets.', '5 C10'),
     'C11': ('other', f'{P_TXT}: limit accounting of compile_pattern, translate and Glob._iter_patterns with inductive loop invariants over ghost expansion counts, recursion replaced by contract, '
             'pass-through of limit in every entry point, default values; + bounded replay on the real API',
             'Every obligation of the limit clauses is discharged for all limits/counts (unbounded) on the real bodies; what remains assumed is bracex\'s own limit contract and the ghost-count '
@@ -60,7 +60,7 @@ CHECKS = {
     'C19': ('other', f'frame obligations by complete AST scan (no process-wide mutable state, no mutable defaults, single typed lru_cache) + {P_TXT} (__eq__/__ne__/__hash__/__init__/reducers of matcher objects)',
             'History independence is argued by a frame proof (nothing persists between calls except two assumed-transparent caches); thread schedules are not explored; hence other.', '5 C19'),
     'C20': ('other', f'{P_TXT} (norm_pattern applied with the right arguments before expand in every route); bounded: norm_pattern vs an independent decoder on exhaustive strings; per-pattern language equality end to end',
-            'Call order is proved; the decoder itself is a regex substitution checked against an independent decoder on exhaustive short strings (bounded).', '5 C20'),
+            'Call order is proved; the decoding callback norm_pattern.norm is under contract for every alternative of its token regex (what is decoded, passed, rejected; str and bytes); that the token regexes RE_NORM / RE_BNORM find exactly the escapes is checked against an independent decoder on exhaustive short strings (bounded).', '5 C20'),
 }
 
 NOT_YET = 'check not built yet in this round (work in progress; see DESIGN.md 9 build order)'
